@@ -145,6 +145,20 @@ def run(ctx):
         elif not np.allclose(im_a["rf"], im_b["rf"], rtol=1e-7, atol=1e-10) or (kind_ == "single" and not np.allclose(im_a["rfd"], im_b["rfd"], rtol=1e-7, atol=1e-10)):
             bad("recovery depends on whether a level came from the iterative solver or from the direct-solve fallback (a flagged iterate was kept)", inp,
                 dict(flux_final=[float(im_a["rf"][-1]), float(im_b["rf"][-1])], max_diff=float(np.abs(im_a["rf"] - im_b["rf"]).max())))
+    # ---------------- the node count held as a narrow NumPy integer (np.uint8(24), np.int16(200) read from a settings array): the same
+    # recoveries as for the Python int - both describe the same quantity on the same grid
+    tbn = rescorr.synth_table("ideal", 60)
+    for nx_n, ty_n in ((24, "uint8"), (200, "int16"), (100, "int8")) if ctx.quick else ((24, "uint8"), (200, "int16"), (100, "int8"), (250, "uint8"), (300, "uint16"), (182, "int16")):
+        tg_n = np.linspace(0, np.sqrt(0.6), 40) ** 2
+        base_n = dict(kind="single", table=tbn, pi=8000.0, pf=1500.0, nx=nx_n, times=tg_n)
+        a_n, b_n = rescorr.run_impl(base_n), rescorr.run_impl(dict(base_n, nx_type=ty_n))
+        ev += 2
+        inp_n = dict(table="ideal-gas (consistent)", nx=nx_n, nx_given_as="numpy." + ty_n, p_frac=1500.0, p_initial=8000.0)
+        if "rf" not in a_n or "rf" not in b_n:
+            bad("simulation fails when the node count is a narrow NumPy integer", inp_n, b_n.get("error") or a_n.get("error"))
+        elif not (np.allclose(a_n["rf"], b_n["rf"], rtol=1e-9, atol=1e-12) and np.allclose(a_n["rfd"], b_n["rfd"], rtol=1e-9, atol=1e-12)):
+            bad("recovery depends on the integer TYPE of the node count (flux-based and in-place recovery no longer describe the same quantity on the same grid)", inp_n,
+                dict(flux_final=[float(a_n["rf"][-1]), float(b_n["rf"][-1])], inplace_final=[float(a_n["rfd"][-1]), float(b_n["rfd"][-1])]))
     # ---------------- the far end of a refinement ladder: more than a thousand nodes (a few steps only - each costs 0.1 s): both
     # recoveries start at zero, neither decreases under constant drawdown, the in-place one stays under its ceiling, and the two agree with
     # the run on half as many nodes to first order (any "large grid" code path must still solve the same problem)
